@@ -483,6 +483,12 @@ void dataset_t::check(tensor_size_t feature) const
 
 void dataset_t::check(indices_cmap_t samples) const
 {
+    // NB: an empty list has no out-of-range index (and no minimum or maximum to read)
+    if (samples.size() == 0)
+    {
+        return;
+    }
+
     critical(samples.min() < 0 || samples.max() >= m_datasource.samples(),
              "dataset: invalid sample range, expecting in [0, ", m_datasource.samples(), "), got ", "[", samples.min(),
              ", ", samples.max(), ")!");
